@@ -51,7 +51,18 @@ ParamCheckFails(ev) ==
          (IF (ev.outcome = "ok") # valid
           THEN {F_("C19", <<"parameter check", ev.field, ev.bound, ev.rel, "expected valid", valid, "got", ev.outcome>>, "param-" \o ev.field)} ELSE {}) \cup
          (IF ~valid /\ ev.outcome = "error" /\ ~(ev.rejectedCall /\ ev.sameAfter)
-          THEN {F_("C19", <<"rejected parameters reached placement work or modified the circuit", ev.field>>, "reject-late")} ELSE {})
+          THEN {F_("C19", <<"rejected parameters reached placement work or modified the circuit", ev.field>>, "reject-late")} ELSE {}) \cup
+         \* per entry point (placeGlobal, legalize, placeDetailed), on a circuit on which the control call with valid parameters
+         \* succeeded with callbacks and moved cells: the call is refused before the first callback and nothing changed
+         (IF ~valid /\ ev.outcome = "error"
+          THEN UNION { (IF ~(ev.stages[k].controlOk /\ ev.stages[k].controlMoved)
+                        THEN {F_("framework", <<"control call did not succeed and move cells", ev.stages[k].stage>>, "control")} ELSE {}) \cup
+                       (IF ~ev.stages[k].rejected
+                        THEN {F_("C19", <<"rejected parameters accepted or callbacks ran", ev.stages[k].stage, ev.field, ev.stages[k].callbacks>>, "reject-late")} ELSE {}) \cup
+                       (IF ~ev.stages[k].same
+                        THEN {F_("C19", <<"call with rejected parameters modified the circuit", ev.stages[k].stage, ev.field>>, "reject-modified")} ELSE {})
+                       : k \in 1..Len(ev.stages) }
+          ELSE {})
 
 \* callback grammars
 RECURSIVE AllIn(_, _)
